@@ -1,6 +1,9 @@
 package sleep
 
-import "sync/atomic"
+import (
+	"sync/atomic"
+	"unsafe"
+)
 
 // ---------- C19: Sleeper / Waker ----------
 //
@@ -23,11 +26,12 @@ type vhWk struct {
 }
 
 type vhSl struct {
-	s      Sleeper
-	k      [2]vhWk
-	park   chan struct{}
-	bad    int32 // ghost: set when an obligation is violated; the safety predicate is bad == 0
-	parked int32 // ghost: the fetcher committed to sleep and has not been readied yet
+	s       Sleeper
+	k       [2]vhWk
+	park    chan struct{}
+	bad     int32 // ghost: set when an obligation is violated; the safety predicate is bad == 0
+	doneRet int32 // ghost: Done has returned
+	parked  int32 // ghost: the fetcher committed to sleep and has not been readied yet
 }
 
 var vhCur *vhSl
@@ -162,6 +166,17 @@ func vh_sl_poller(x *vhSl, tid int, choice int) {
 func vh_sl_asserter0(x *vhSl, tid int, choice int) { vh_asserter(x, &x.k[0], choice) }
 func vh_sl_asserter1(x *vhSl, tid int, choice int) { vh_asserter(x, &x.k[1], choice) }
 
+// one goroutine asserting both wakers, in either order (choice bit 0)
+func vh_sl_asserter01(x *vhSl, tid int, choice int) {
+	if choice&1 == 0 {
+		x.k[0].assert()
+		x.k[1].assert()
+	} else {
+		x.k[1].assert()
+		x.k[0].assert()
+	}
+}
+
 // choice bit 0: assert a second time; bit 1 (only with param clears=1): clear afterwards
 func vh_asserter(x *vhSl, k *vhWk, choice int) {
 	k.assert()
@@ -174,6 +189,24 @@ func vh_asserter(x *vhSl, k *vhWk, choice int) {
 }
 
 func vh_sl_safe(x *vhSl) bool { return x.bad == 0 }
+
+// Scenario "done": the owner calls Done while another goroutine asserts the waker.
+func vh_sl_doner(x *vhSl, tid int, choice int) {
+	x.s.Done()
+	x.doneRet = 1
+}
+
+// after Done has returned nobody touches the sleeper: its shared list stays empty and its
+// wait word stays clear (an Assert that was in flight when Done started must have been
+// waited for)
+func vh_sl_done_safe(x *vhSl) bool {
+	return vand(x.bad == 0, vor(x.doneRet == 0, vand(x.s.sharedList == nil, x.s.waitingG == 0)))
+}
+
+// at the end every waker is detached (nil) or asserted-without-sleeper, i.e. attachable
+func vh_sl_done_final(x *vhSl) bool {
+	return vand(x.parked == 0, vor(x.k[0].w.s == nil, x.k[0].w.s == unsafe.Pointer(&assertedSleeper)))
+}
 
 // when everything has finished: the fetcher is not marked parked and no wake-up token is left over
 func vh_sl_final(x *vhSl) bool { return vand(x.parked == 0, len(x.park) == 0) }
@@ -189,6 +222,12 @@ func vh_sl_seq() {
 	s.AddWaker(&w[1], 20)
 	_, ok := s.Fetch(false)
 	vassert(!ok, "nothing asserted: a non-blocking fetch reports nothing")
+	if vnBool("preclear") {
+		// clearing a waker that is not asserted reports false and changes nothing: a later
+		// Assert is still delivered
+		vassert(!w[0].Clear(), "Clear of a waker that is not asserted reports false")
+		vreach("preclear")
+	}
 	n0 := vnChoice("asserts0", 3)
 	n1 := vnChoice("asserts1", 3)
 	first := vnBool("w1first")
@@ -236,6 +275,14 @@ func vh_sl_seq() {
 	vassert(got0 == want0, "waker 0 is reported exactly once iff asserted and not cleared (several asserts give one notification)")
 	vassert(got1 == want1, "waker 1 is reported exactly once iff asserted")
 	vassert(!w[0].IsAsserted() && !w[1].IsAsserted(), "a fetched waker is no longer asserted")
+	if vnBool("postclear") {
+		// a fetched (no longer asserted) waker: Clear reports false and the waker stays attached
+		vassert(!w[0].Clear(), "Clear of a fetched waker reports false")
+		w[0].Assert()
+		id, ok := s.Fetch(false)
+		vassert(ok && id == 10, "an Assert after a fruitless Clear is still delivered")
+		vreach("postclear")
+	}
 	if want0 == 1 {
 		// blocking fetch with a pending notification returns at once
 		w[0].Assert()
